@@ -205,6 +205,10 @@ func c19Body(c *ev.Ctx) {
 								c.Violation(key+"|hang", "prove does not terminate", cs)
 								return
 							}
+							if bytes.Contains(res.Stderr, []byte("panic:")) {
+								c.Violation(key+"|panic", fmt.Sprintf("prove panics: %.200s", res.Stderr[bytes.Index(res.Stderr, []byte("panic:")):]), cs)
+								return
+							}
 							if shouldSucceed {
 								if res.Exit != 0 {
 									c.Violation(key+"|fails", fmt.Sprintf("prove fails (exit %d) although mode, keys and generated parameters match: %s", res.Exit, tailStr(res.Stderr)), cs)
@@ -309,6 +313,10 @@ func c19Body(c *ev.Ctx) {
 					note(fmt.Sprintf("verify|%s|%s|%s|%s", mf, k, hk, pk))
 					if res.TimedOut {
 						c.Violation(key+"|hang", "verify does not terminate", cs)
+						return
+					}
+					if bytes.Contains(res.Stderr, []byte("panic:")) {
+						c.Violation(key+"|panic", fmt.Sprintf("verify panics: %.200s", res.Stderr[bytes.Index(res.Stderr, []byte("panic:")):]), cs)
 						return
 					}
 					valid := false
